@@ -13,7 +13,7 @@ from mir2smt import Mir, Interp, IntTheory, RealTheory, BVTheory, Enum, Ref, Unt
 VERIF = os.path.dirname(os.path.dirname(os.path.abspath(__file__)))
 REPO = os.environ.get('VERIF_REPO', '/repo')
 CACHE = os.path.join(VERIF, '.cache')
-MIRDIR = os.path.join(CACHE, 'mir')
+MIRDIR = os.environ.get('VERIF_MIRDIR', os.path.join(CACHE, 'mir'))
 
 AFF = r'affine_ops::<impl at geo/src/algorithm/affine_ops\.rs:\d+:\d+: \d+:\d+>::'
 EXTRA = {
@@ -37,7 +37,7 @@ EXTRA = {
 def dump_mir():
     """regenerate the MIR of geo and geo-types from /repo's current working tree"""
     os.makedirs(MIRDIR, exist_ok=True)
-    env = dict(os.environ, CARGO_TARGET_DIR=os.path.join(CACHE, 'mir-target'), CARGO_NET_OFFLINE='true')
+    env = dict(os.environ, CARGO_TARGET_DIR=os.environ.get('VERIF_MIRTARGET', os.path.join(CACHE, 'mir-target')), CARGO_NET_OFFLINE='true')
     t0 = time.time()
     for crate, sub, extra in (('geo_types', 'geo-types', []), ('geo', 'geo', ['--no-default-features'])):
         root = os.path.join(REPO, sub)
@@ -538,6 +538,260 @@ for _mut in ('', '_mut'):
     make_trait_obligation('C13', 'skew', 'skew' + _mut, 1, 'center', 'skew', 'skew%s(d) applies AffineTransform::skew(d,d, centre of the bounding rectangle)' % _mut)
     make_trait_obligation('C13', 'skew', 'skew_xy' + _mut, 2, 'center', 'skew', 'skew_xy%s(xs,ys) applies AffineTransform::skew(xs,ys, centre of the bounding rectangle)' % _mut)
     make_trait_obligation('C13', 'skew', 'skew_around_point' + _mut, 2, 'given', 'skew', 'skew_around_point%s(xs,ys,o) applies AffineTransform::skew(xs,ys,o)' % _mut)
+
+
+# ---- structure-preserving rebuilds (C05 orient, C19 map_coords / try_map_coords on holed polygons
+# and Multi*): rings / members are opaque records, `collect()` over slice iterators is modelled
+
+class Ring:
+    """opaque ring: identity, symbolic winding, mapped flag"""
+    def __init__(self, rid, ccw, mapped=False):
+        self.rid, self.ccw, self.mapped = rid, ccw, mapped
+
+
+def structural_interp(mir, nholes, ring_fail=None, log=None):
+    """interpreter in which Polygon is the record [ext, [holes]] and the ring-level operations
+    are uninterpreted but tracked"""
+    T = RealTheory()
+    ext = Ring('ext', z3.Bool('ext_ccw'))
+    holes = [Ring('hole%d' % i, z3.Bool('hole%d_ccw' % i)) for i in range(nholes)]
+    poly = [ext, holes]
+    calls = log if log is not None else []
+
+    def exterior(ip, d):
+        return deref(d[0])[0]
+
+    def interiors(ip, d):
+        return deref(d[0])[1]
+
+    def poly_new(ip, d):
+        return [deref(d[0]), [deref(h) for h in deref(d[1])]]
+
+    def rewind(ip, d):
+        r, order = deref(d[0]), deref(d[1])
+        return Ring(r.rid, z3.BoolVal(order.variant == 'CounterClockwise'), r.mapped)
+
+    def winding_order(ip, d):
+        r = deref(d[0])
+        return ('fork', [(r.ccw, Enum('Some', [Enum('CounterClockwise')])), (z3.Not(r.ccw), Enum('Some', [Enum('Clockwise')]))])
+
+    def ls_map(ip, d, pc):
+        r = deref(d[0])
+        calls.append((pc, r.rid))
+        return Ring(r.rid, r.ccw, True)
+    ls_map.wants_pc = True
+
+    def ls_try_map(ip, d, pc):
+        r = deref(d[0])
+        calls.append((pc, r.rid))
+        f = ring_fail[r.rid]
+        return ('fork', [(z3.Not(f), Enum('Ok', [Ring(r.rid, r.ccw, True)])), (f, Enum('Err', [('error-of', r.rid)]))])
+    ls_try_map.wants_pc = True
+
+    def clone(ip, d):
+        return deref(d[0])
+
+    def ls_map_in_place(ip, d, pc):
+        r = deref(d[0])
+        calls.append((pc, r.rid))
+        r.mapped = True
+        return []
+    ls_map_in_place.wants_pc = True
+
+    def exterior_mut(ip, d, pc):
+        p = deref(d[0])
+        outs = ip.call_closure(d[1], [Ref(lambda: p[0])], pc, 0)
+        if len(outs) != 1:
+            raise Untranslatable('exterior_mut closure forked')
+        return []
+    exterior_mut.wants_pc = True
+
+    def interiors_mut(ip, d, pc):
+        p = deref(d[0])
+        outs = ip.call_closure(d[1], [Ref(lambda: p[1])], pc, 0)
+        if len(outs) != 1:
+            raise Untranslatable('interiors_mut closure forked')
+        return []
+    interiors_mut.wants_pc = True
+    uf = {
+        're:geo_types::Polygon::<\\w+>::exterior_mut::<.*>': exterior_mut,
+        're:geo_types::Polygon::<\\w+>::interiors_mut::<.*>': interiors_mut,
+        're:<geo_types::LineString<\\w+> as map_coords::MapCoordsInPlace<\\w+>>::map_coords_in_place::<.*>': ls_map_in_place,
+        're:geo_types::Polygon::<\\w+>::exterior': exterior,
+        're:geo_types::Polygon::<\\w+>::interiors': interiors,
+        're:geo_types::Polygon::<\\w+>::new': poly_new,
+        're:<geo_types::LineString<\\w+> as (algorithm::)?winding_order::Winding>::clone_to_winding_order': rewind,
+        're:<geo_types::LineString<\\w+> as (algorithm::)?winding_order::Winding>::winding_order': winding_order,
+        're:<geo_types::LineString<\\w+> as map_coords::MapCoords<\\w+, \\w+>>::map_coords::<.*>': ls_map,
+        're:<geo_types::LineString<\\w+> as map_coords::MapCoords<\\w+, \\w+>>::try_map_coords::<.*>': ls_try_map,
+        're:<geo_types::Polygon<\\w+> as Clone>::clone': clone,
+    }
+    return Interp(mir, T, EXTRA, uf), poly, ext, holes, calls
+
+
+def rings_of(p):
+    p = deref(p)
+    return [deref(p[0])] + [deref(h) for h in deref(p[1])]
+
+
+@obligation('C05', 'orient_polygon_structure', 'for polygons with 0, 1 and 2 holes of ANY winding and both directions: orient() returns the same rings in the same order, the exterior counter-clockwise and every hole clockwise for Default, the reverse for Reversed (rings opaque; collect() over the hole slice modelled)')
+def o_orient_structure(mir, tier, seed):
+    fn = mir.find('geo', r'orient')
+    bad, npaths = [], 0
+    for nholes in (0, 1, 2):
+        for direction in ('Default', 'Reversed'):
+            ip, poly, ext, holes, _ = structural_interp(mir, nholes)
+            outs = ip.call_fn(fn, [Ref(lambda poly=poly: poly), Enum(direction)], z3.BoolVal(True))
+            npaths += len(outs)
+            bad.append(z3.Not(z3.Or([pc for pc, _ in outs])))
+            for pc, res in outs:
+                rs = rings_of(res)
+                want_ids = ['ext'] + ['hole%d' % i for i in range(nholes)]
+                if [r.rid for r in rs] != want_ids:
+                    bad.append(pc)      # wrong rings / order on this path
+                    continue
+                ext_ccw = direction == 'Default'
+                conds = [rs[0].ccw == z3.BoolVal(ext_ccw)] + [r.ccw == z3.BoolVal(not ext_ccw) for r in rs[1:]]
+                bad.append(z3.And(pc, z3.Not(z3.And(conds))))
+    st, info, model = check_unsat('orient_polygon_structure', [z3.Or(bad)])
+    return dict(theory='Bool (ring windings symbolic); Polygon = record of opaque rings; slice iter/map/collect modelled', functions=['orient::orient', 'orient::{closure#0}'], paths=npaths, status=st, info=info, model=None, replay=('structural', ''))
+
+
+def map_obligation(pid, name, fn_pat, doc, fallible):
+    @obligation(pid, name, doc)
+    def o(mir, tier, seed):
+        fn = mir.find('geo', fn_pat)
+        bad, npaths = [], 0
+        for nholes in (0, 1, 2):
+            ids = ['ext'] + ['hole%d' % i for i in range(nholes)]
+            fail = {i: z3.Bool('fail_' + i) for i in ids}
+            ip, poly, ext, holes, calls = structural_interp(mir, nholes, ring_fail=fail)
+            func = ('the-mapping-function',)
+            outs = ip.call_fn(fn, [Ref(lambda poly=poly: poly), func], z3.BoolVal(True))
+            npaths += len(outs)
+            bad.append(z3.Not(z3.Or([pc for pc, _ in outs])))
+            first_fail = {}
+            for k, i in enumerate(ids):
+                first_fail[i] = z3.And([z3.Not(fail[j]) for j in ids[:k]] + [fail[i]])
+            nofail = z3.And([z3.Not(fail[i]) for i in ids])
+            for pc, res in outs:
+                res = deref(res)
+                if fallible:
+                    if isinstance(res, Enum) and res.variant == 'Ok':
+                        rs = rings_of(res.fields[0])
+                        okshape = [r.rid for r in rs] == ids and all(r.mapped for r in rs)
+                        bad.append(pc if not okshape else z3.And(pc, z3.Not(nofail)))
+                    elif isinstance(res, Enum) and res.variant == 'Err':
+                        e = deref(res.fields[0])
+                        rid = e[1] if isinstance(e, tuple) else None
+                        bad.append(pc if rid not in first_fail else z3.And(pc, z3.Not(first_fail[rid])))
+                    else:
+                        raise Untranslatable('try_map_coords returned %r' % (res,))
+                else:
+                    rs = rings_of(res)
+                    if [r.rid for r in rs] != ids or not all(r.mapped for r in rs):
+                        bad.append(pc)
+            # the mapping function is applied to no ring after the first failing one
+            if fallible:
+                for pc, rid in calls:
+                    k = ids.index(rid)
+                    bad.append(z3.And(pc, z3.Or([fail[j] for j in ids[:k]]) if k else z3.BoolVal(False)))
+        st, info, model = check_unsat(name, [z3.Or(bad)])
+        return dict(theory='Bool (per-ring failure symbolic); Polygon = record of opaque rings; slice iter/map/collect modelled', functions=[fn_pat.split('::')[-1] + ' (Polygon)'], paths=npaths, status=st, info=info, model=None, replay=('structural', ''))
+    return o
+
+
+@obligation('C19', 'polygon_map_coords_in_place_structure', 'for polygons with 0, 1, 2 holes: map_coords_in_place(f) applies f to every ring exactly once (exterior through exterior_mut, holes through interiors_mut)')
+def o_map_in_place(mir, tier, seed):
+    fn = mir.find('geo', r'map_coords::<impl at geo/src/algorithm/map_coords\.rs:\d+:1: \d+:53>::map_coords_in_place')
+    bad, npaths = [], 0
+    for nholes in (0, 1, 2):
+        ids = ['ext'] + ['hole%d' % i for i in range(nholes)]
+        ip, poly, ext, holes, calls = structural_interp(mir, nholes)
+        outs = ip.call_fn(fn, [Ref(lambda poly=poly: poly), ('the-mapping-function',)], z3.BoolVal(True))
+        npaths += len(outs)
+        if len(outs) != 1:
+            raise Untranslatable('map_coords_in_place forked')
+        visited = [rid for _, rid in calls]
+        if sorted(visited) != sorted(ids) or not all(r.mapped for r in rings_of(poly)):
+            bad.append(z3.BoolVal(True))
+    st, info, model = check_unsat('polygon_map_coords_in_place_structure', [z3.Or(bad) if bad else z3.BoolVal(False)])
+    return dict(theory='structural (no symbolic branch); Polygon = record of opaque rings; IterMut modelled', functions=['map_coords_in_place (Polygon)', 'closures passed to Polygon::exterior_mut / interiors_mut'], paths=npaths, status=st, info=info, model=None, replay=('structural', ''))
+
+
+def multi_obligations():
+    MLS_MAP = r'map_coords::<impl at geo/src/algorithm/map_coords\.rs:\d+:1: \d+:72>::map_coords'
+    MPOLY_MAP = r'map_coords::<impl at geo/src/algorithm/map_coords\.rs:\d+:1: \d+:69>::map_coords'
+    MPOLY_ORIENT = r'orient::<impl at geo/src/algorithm/orient\.rs:\d+:1: \d+:15>::orient'
+
+    def multi_new(ip, d):
+        return [[deref(x) for x in deref(d[0])]]
+
+    @obligation('C19', 'multi_map_coords_structure', 'MultiLineString::map_coords and MultiPolygon::map_coords (members with a hole) rebuild the collection from f applied to every member / ring, same members, same order')
+    def o_multi_map(mir, tier, seed):
+        bad, npaths = [], 0
+        # MultiLineString of 3 members
+        ip, _, _, _, calls = structural_interp(mir, 0)
+        ip.uf['re:geo_types::Multi\\w+::<\\w+>::new'] = multi_new
+        members = [Ring('m%d' % i, z3.Bool('m%d_ccw' % i)) for i in range(3)]
+        mls = [members]
+        outs = ip.call_fn(mir.find('geo', MLS_MAP), [Ref(lambda: mls), ('f',)], z3.BoolVal(True))
+        npaths += len(outs)
+        for pc, res in outs:
+            got = [deref(x) for x in deref(deref(res)[0])]
+            if [r.rid for r in got] != ['m0', 'm1', 'm2'] or not all(r.mapped for r in got):
+                bad.append(pc)
+        # MultiPolygon of 2 members, each [ext, [hole]]
+        ip, _, _, _, calls = structural_interp(mir, 0)
+        ip.uf['re:geo_types::Multi\\w+::<\\w+>::new'] = multi_new
+        ip.extra[r'<geo_types::Polygon<\w+> as map_coords::MapCoords<\w+, \w+>>::map_coords::<.*>'] = ('geo', POLY_MAP + 'map_coords')
+        polys = [[Ring('p%d_ext' % i, z3.Bool('p%d_e' % i)), [Ring('p%d_hole' % i, z3.Bool('p%d_h' % i))]] for i in range(2)]
+        mp = [polys]
+        outs = ip.call_fn(mir.find('geo', MPOLY_MAP), [Ref(lambda: mp), ('f',)], z3.BoolVal(True))
+        npaths += len(outs)
+        for pc, res in outs:
+            got = [rings_of(x) for x in deref(deref(res)[0])]
+            ids = [[r.rid for r in rs] for rs in got]
+            if ids != [['p0_ext', 'p0_hole'], ['p1_ext', 'p1_hole']] or not all(r.mapped for rs in got for r in rs):
+                bad.append(pc)
+        st, info, model = check_unsat('multi_map_coords_structure', [z3.Or(bad) if bad else z3.BoolVal(False)])
+        return dict(theory='structural; Multi* = record of opaque members; slice iter/map/collect modelled', functions=['map_coords (MultiLineString)', 'map_coords (MultiPolygon)', 'map_coords (Polygon)'], paths=npaths, status=st, info=info, model=None, replay=('structural', ''))
+
+    @obligation('C05', 'orient_multipolygon_structure', 'MultiPolygon::orient orients every member (two members with a hole each, ANY windings, both directions): exterior counter-clockwise / holes clockwise for Default, the reverse for Reversed, same rings in the same order')
+    def o_multi_orient(mir, tier, seed):
+        bad, npaths = [], 0
+        for direction in ('Default', 'Reversed'):
+            ip, _, _, _, _ = structural_interp(mir, 0)
+            ip.uf['re:geo_types::Multi\\w+::<\\w+>::new'] = multi_new
+            ip.extra[r'<geo_types::Polygon<\w+> as orient::Orient>::orient'] = ('geo', r'orient::<impl at geo/src/algorithm/orient\.rs:6\d:1: \d+:15>::orient')
+            ip.extra[r'orient::<\w+>'] = ('geo', r'orient')
+            polys = [[Ring('p%d_ext' % i, z3.Bool('p%d_e' % i)), [Ring('p%d_hole' % i, z3.Bool('p%d_h' % i))]] for i in range(2)]
+            mp = [polys]
+            fns = [m for m in re.finditer(r'^fn (' + MPOLY_ORIENT + r')\(_1: &geo_types::MultiPolygon', mir.text['geo'], re.M)]
+            if len(fns) != 1:
+                raise Untranslatable('MultiPolygon::orient not found uniquely')
+            fn = mir.find('geo', re.escape(fns[0].group(1)))
+            outs = ip.call_fn(fn, [Ref(lambda: mp), Enum(direction)], z3.BoolVal(True))
+            npaths += len(outs)
+            bad.append(z3.Not(z3.Or([pc for pc, _ in outs])))
+            for pc, res in outs:
+                got = [rings_of(x) for x in deref(deref(res)[0])]
+                if [[r.rid for r in rs] for rs in got] != [['p0_ext', 'p0_hole'], ['p1_ext', 'p1_hole']]:
+                    bad.append(pc)
+                    continue
+                ext_ccw = direction == 'Default'
+                conds = []
+                for rs in got:
+                    conds += [rs[0].ccw == z3.BoolVal(ext_ccw), rs[1].ccw == z3.BoolVal(not ext_ccw)]
+                bad.append(z3.And(pc, z3.Not(z3.And(conds))))
+        st, info, model = check_unsat('orient_multipolygon_structure', [z3.Or(bad)])
+        return dict(theory='Bool (ring windings symbolic); structural', functions=['orient (MultiPolygon)', 'orient (Polygon)', 'orient::orient'], paths=npaths, status=st, info=info, model=None, replay=('structural', ''))
+
+
+POLY_MAP = r'map_coords::<impl at geo/src/algorithm/map_coords\.rs:\d+:1: \d+:64>::'
+map_obligation('C19', 'polygon_map_coords_structure', POLY_MAP + 'map_coords', 'for polygons with 0, 1, 2 holes: map_coords(f) rebuilds the polygon from f applied to every ring, same rings, same order', False)
+multi_obligations()
+map_obligation('C19', 'polygon_try_map_coords_structure', POLY_MAP + 'try_map_coords', 'for polygons with 0, 1, 2 holes and ANY subset of rings on which f fails: try_map_coords returns the error of the FIRST failing ring (exterior, then holes in order), applies f to no later ring, and otherwise returns Ok(all rings mapped, same order)', True)
 
 
 # ------------------------------------------------------------------------------- models & replay
